@@ -15,7 +15,9 @@ class SPEC:
             "Ipfix.recordBuf: records of 1..6 registry elements, well-typed; one or several ill-typed values (wrong address family, MAC of "
             "0/3/7/8/12 bytes, fixed octet array of the wrong length) at every position, followed or not by other elements (a long MAC "
             "value spills into its successors); user-made elements whose declared length is 0 / below / equal to / above the type's width "
-            "(up to 255, 65534, 65535), strings with a fixed declared length, octet arrays fixed and variable, unsupported types.")
+            "(up to 255, 65534, 65535), strings with a fixed declared length, octet arrays fixed and variable, unsupported types. "
+            "`recbufx <elems> <k>`: the same records GROWN after their buffer was taken once (built from the first k elements, GetBuffer, "
+            "the rest appended one by one with AddInfoElement, GetBuffer after each) - same length and bytes as built in one go.")
     assumptions = ["values are passed as bit patterns; Go's float32/float64 carry them unchanged (no arithmetic on the path)"]
     trusted = []
 
@@ -221,6 +223,23 @@ def gen_recbuf(rng, tier, add):
             a = rng.choice(reg)
             for v in ("n0", "n%d" % rng.getrandbits(64), "t"):
                 add([rec([(a, small(a)), (ie, v), (a, small(a))])], "recbuf-unsupported", False)
+    # a record that GROWS after its buffer was taken: built from the first k elements, GetBuffer, the rest appended with
+    # AddInfoElement (`ie recbufx <elems> <k>`): same length, same bytes as the record built in one go
+    for _ in range(1200 * scale):
+        n = rng.randint(1, 6)
+        r = rng.random()
+        if r < 0.6:
+            ies = [rng.choice(reg) for _ in range(n)]
+            pairs = [(ie, small(ie)) for ie in ies]
+        elif r < 0.8:
+            ies = [rng.choice(illable) if rng.random() < 0.5 else rng.choice(reg) for _ in range(n)]
+            pairs = [(ie, any_value(rng, ie)) for ie in ies]
+        else:
+            ies = [rng.choice(small_odd) if rng.random() < 0.6 else rng.choice(reg) for _ in range(n)]
+            pairs = [(ie, any_value(rng, ie)) for ie in ies]
+        add(["%s %d" % (rec(pairs).replace("ie recbuf ", "ie recbufx ", 1), rng.randint(0, n))], "recbuf-grown")
+    add(["ie recbufx - 0"], "recbuf-grown", False)
+    add(["ie recbufx - 1"], "recbuf-bad-token", False)
     # tokens the harness' typed constructors refuse: bad-op on both sides
     for tok in ("0:4:1:1:78=n256", "0:4:1:1:78=x01", "0:4:11:1:78=n1", "0:56:12:6:78=n5", "0:4:1:1:78", "0:4:1:1:78=",
                 "0:70000:1:1:78=n1", "0:4:1:70000:78=n1"):
@@ -243,7 +262,7 @@ def run(ctx):
             dist.add("outcome:" + (i or "missing").split(" ")[0])
             if i != m:
                 disagreements.append({"case": ci, "ops": c.ops, "impl": i[:400], "model": m[:400], "label": c.label})
-            if op.startswith("ie rt "):
+            if op.startswith("ie rt ") or (op.startswith("ie recbuf") and c.label != "recbuf-bad-token"):
                 chk_lines.append("chk %s | %s" % (op, i))
                 chk_idx.append((ci, oi))
     verdicts = ctx.check_pred(chk_lines)
@@ -252,7 +271,7 @@ def run(ctx):
         if v != "holds":
             c = cases[ci]
             failures.append({"signature": "C15:%s:%s" % (c.label, v), "ops": c.ops, "impl": impl[ci][oi][:400],
-                             "model": model[ci][oi][:400], "predicate": {"name": "Ipfix.C15.holdsRT", "value": v}})
+                             "model": model[ci][oi][:400], "predicate": {"name": "Ipfix.C15.holdsRecBuf" if c.ops[oi].startswith("ie recbuf") else "Ipfix.C15.holdsRT", "value": v}})
     fail_cases = {tuple(f["ops"]) for f in failures}
     for d in disagreements:
         d["explained_by_predicate_failure"] = tuple(d["ops"]) in fail_cases
